@@ -29,6 +29,7 @@ func VerifAverages() {
 	if vrt.Param("bases", 2) == 2 && vrt.Choose("base", 2) == 1 {
 		base = int(specPIP10) - 3
 	}
+	zeroAt := vrt.Choose("zeroRateAt", H+1) // the first asset is recorded with rate 0 at this height (0 = nowhere)
 	// ---- the chain's rate table (committed, as after syncing H blocks)
 	for h := 1; h <= H; h++ {
 		rated[h] = vrt.Choose("rated", 2) == 1
@@ -40,6 +41,9 @@ func VerifAverages() {
 				continue
 			}
 			v := vrt.URange("rate", 1, 1<<40)
+			if ti == 0 && h == zeroAt {
+				v = 0 // a recorded 0 (an out-of-band asset from 2.0.2 on) is a sample too
+			}
 			if _, err := db.Exec("INSERT INTO pn_rate (height, token, value) VALUES ($1, $2, $3)", base+h, t.String(), v); err != nil {
 				panic(err)
 			}
